@@ -113,6 +113,15 @@ class Check:
         workers = min(16, max(1, len(self.units)))
         with ProcessPoolExecutor(max_workers=workers, mp_context=ctx) as ex:
             reports = list(ex.map(run_unit, self.units))
+            # callee contracts: operators used BY CONTRACT inside the operators under proof (duration.pipe(take(1)), map + merge_all, ...)
+            # are re-proved inside this check, so a change in such a callee fails here too (under the callee's own obligation)
+            from . import registry
+
+            used = sorted({u for r in reports for u in r.get("callee_contracts_used", [])})
+            extra = registry.callee_op_units(self.prop, used, {u.get("id") for u in self.units}, self.tier)
+            if extra:
+                self.units = list(self.units) + extra
+                reports += list(ex.map(run_unit, extra))
         # native side-jobs (spec validation, bounded stand-ins, replays) in threads
         lines = []
         violations = []
